@@ -332,5 +332,75 @@ theorem Rminus_canon (sin : Int → Cx α) (A : Nat) (sw : Int) (L : Int) (st : 
   refine Lemmas.Object.loopN_congr _ _ _ st (fun k1 hk1 s => ?_)
   rw [if_pos (by omega)]
   exact R_canon_aux sin A sw (sw + 1) L (fun e => (Scalar.sqrt (Scalar.ofInt ((e + (sw + 1)) * ((e - (sw + 1)) + 1)) : α))) e0 he0 k1 hk1 s
+
+/-! ### the array-level operators: blocks addressed by a running counter -/
+
+/-- `for ell in range(ell_min, …)` whose block `e` advances the counter by `2e+1`, writes only the `2e+1` cells at the counter
+    and leaves `act e (old)` in each: the counter after `cnt` blocks, every cell of every block, and the cells beyond -/
+theorem ctr_blocks (A : Nat) (emin : Nat) (B : Int → φ × Int → φ × Int) (act : Int → Cx α → Cx α)
+    (hc : ∀ (e : Int) (p : φ × Int), 0 ≤ e → (B e p).2 = p.2 + (2 * e + 1))
+    (hout : ∀ (e : Int) (p : φ × Int) (i : Int), 0 ≤ e → ¬ (p.2 ≤ i ∧ i < p.2 + (2 * e + 1)) → frdC (α := α) (B e p).1 A i = frdC (α := α) p.1 A i)
+    (hin : ∀ (e : Int) (p : φ × Int) (i : Int), 0 ≤ e → p.2 ≤ i → i < p.2 + (2 * e + 1) → frdC (α := α) (B e p).1 A i = act e (frdC (α := α) p.1 A i))
+    (cnt : Nat) (st : φ) :
+    (loopN cnt (fun k p => B ((emin : Int) + (k : Int)) p) (st, 0)).2 = ((emin : Int) + cnt) * ((emin : Int) + cnt) - (emin : Int) * emin
+    ∧ (∀ (ell : Int) (k : Int), (emin : Int) ≤ ell → ell < (emin : Int) + cnt → 0 ≤ k → k < 2 * ell + 1 →
+        frdC (α := α) (loopN cnt (fun k p => B ((emin : Int) + (k : Int)) p) (st, 0)).1 A (ell * ell - (emin : Int) * emin + k)
+          = act ell (frdC (α := α) st A (ell * ell - (emin : Int) * emin + k)))
+    ∧ (∀ i : Int, (i < 0 ∨ ((emin : Int) + cnt) * ((emin : Int) + cnt) - (emin : Int) * emin ≤ i) →
+        frdC (α := α) (loopN cnt (fun k p => B ((emin : Int) + (k : Int)) p) (st, 0)).1 A i = frdC (α := α) st A i) := by
+  induction cnt with
+  | zero =>
+    refine ⟨by simp [loopN], ?_, fun i _ => rfl⟩
+    intro ell k h1 h2; omega
+  | succ n ih =>
+    obtain ⟨c1, c2, c3⟩ := ih
+    simp only [loopN]
+    generalize hP : loopN n (fun k p => B ((emin : Int) + (k : Int)) p) (st, 0) = P at c1 c2 c3
+    have he : (0 : Int) ≤ (emin : Int) + (n : Int) := by omega
+    refine ⟨?_, ?_, ?_⟩
+    · rw [hc _ _ he, c1]; push_cast; ring
+    · intro ell k h1 h2 h3 h4
+      by_cases hl : ell < (emin : Int) + n
+      · rw [hout _ _ _ he (by rw [c1]; intro ⟨a, _⟩; nlinarith)]
+        exact c2 ell k h1 hl h3 h4
+      · have : ell = (emin : Int) + n := by push_cast at h2; omega
+        subst this
+        rw [hin _ _ _ he (by rw [c1]; nlinarith) (by rw [c1]; nlinarith), c3 _ (Or.inr (by nlinarith))]
+    · intro i hi
+      rw [hout _ _ _ he (by
+        rw [c1]; intro ⟨a, b⟩
+        rcases hi with hi | hi
+        · nlinarith
+        · push_cast at hi; nlinarith)]
+      exact c3 i (by
+        rcases hi with hi | hi
+        · exact Or.inl hi
+        · right; push_cast at hi; nlinarith)
+
+/-- a run of in-place updates carrying a counter (the generated inner loop), as a block -/
+def runCtr (A : Nat) (f : Cx α → Cx α) (e : Int) (p : φ × Int) : φ × Int :=
+  loopN (((e + 1)) - ((-e))).toNat (fun k2 (p2 : φ × Int) =>
+    (fwrC (α := α) p2.1 A p2.2 (f (frdC (α := α) p2.1 A p2.2)), p2.2 + 1)) p
+
+theorem runCtr_eq (A : Nat) (f : Cx α → Cx α) (e : Int) (p : φ × Int) :
+    runCtr A f e p = (loopN (2 * e + 1).toNat (fun k s => fwrC (α := α) s A (p.2 + (k : Int)) (f (frdC (α := α) s A (p.2 + (k : Int))))) p.1,
+      p.2 + ((2 * e + 1).toNat : Int)) := by
+  unfold runCtr
+  have ec : (((e + 1)) - ((-e))).toNat = (2 * e + 1).toNat := by omega
+  rw [ec]
+  exact loopN_counter (2 * e + 1).toNat (fun k (q : φ × Int) => fwrC (α := α) q.1 A q.2 (f (frdC (α := α) q.1 A q.2))) p.1 p.2
+
+theorem runCtr_facts (A : Nat) (f : Cx α → Cx α) (e : Int) (he : 0 ≤ e) (p : φ × Int) :
+    (runCtr A f e p).2 = p.2 + (2 * e + 1)
+    ∧ (∀ i, ¬ (p.2 ≤ i ∧ i < p.2 + (2 * e + 1)) → frdC (α := α) (runCtr A f e p).1 A i = frdC (α := α) p.1 A i)
+    ∧ (∀ i, p.2 ≤ i → i < p.2 + (2 * e + 1) → frdC (α := α) (runCtr A f e p).1 A i = f (frdC (α := α) p.1 A i)) := by
+  rw [runCtr_eq]
+  refine ⟨by simp only []; omega, ?_, ?_⟩
+  · intro i hi
+    show frdC (α := α) (loopN _ _ p.1) A i = _
+    rw [run_update (2 * e + 1).toNat A p.2 (fun _ z => f z) p.1 i, if_neg (by omega)]
+  · intro i h1 h2
+    show frdC (α := α) (loopN _ _ p.1) A i = _
+    rw [run_update (2 * e + 1).toNat A p.2 (fun _ z => f z) p.1 i, if_pos (by omega)]
 end
 end GenDiff
